@@ -304,7 +304,7 @@ pub fn property() -> Property {
         },
         hang_is_violation: true,
         hang_limit_s: 900,
-        probes: match read_replay("/verif/known/C06-dual-token-lockstep.json") {
+        probes: match read_replay(&format!("{}/known/C06-dual-token-lockstep.json", verif_dir())) {
             Ok((_, _, data)) => vec![KnownProbe { signature: "dual-token-lockstep", kind: "recovery", data }],
             Err(_) => vec![],
         },
